@@ -105,6 +105,26 @@ def build_traces(path, tier, seed):
         recs.append(rec)
         meta[tid] = m
 
+    # two records whose raw BYTES coincide (signed / unsigned counts of the same width; int32 pairs read as int64) transformed one
+    # after the other with the same transform length: each spectrum is that of its own values
+    for j in range(6 if tier == "quick" else 30):
+        n = int(rng.integers(4, 40))
+        a_, b_ = gen.byte_twins(rng, n)
+        dt = float(rng.choice([0.01, 0.02, 0.5]))
+        for rec_ in (a_, b_):
+            which = j % 3
+            if which == 0:
+                o = eqsig.AccSignal(rec_, dt)
+                N, fas, fr = next_pow2(len(rec_)), np.array(o.fa_spectrum), np.array(o.fa_freqs)
+            elif which == 1:
+                N = len(rec_) + 1
+                fas, fr = fq.calc_fa_spectrum(eqsig.Signal(rec_, dt), n=N)
+            else:
+                N = next_pow2(len(rec_))
+                fas, fr = fq.generate_fa_spectrum(eqsig.Signal(rec_, dt))
+            add({"kind": "fas", "dt": enc(dt), "x": enc_seq(np.asarray(rec_, dtype=float)), "N": int(N), "fas": enc_cseq(fas), "freqs": enc_seq(fr),
+                 "objfas": [], "objfreqs": []},
+                {"kind": "fas", "n": len(rec_), "N": int(N), "variant": "byte twins (%s after %s)" % (rec_.dtype, a_.dtype), "dt": dt, "shape": "counts"})
     nfas = 28 if tier == "quick" else 160
     nmax = 130 if tier == "quick" else 600
     special = [2, 3, 4, 5, 7, 8, 9, 15, 16, 17, 31, 32, 33, 63, 64, 65, 100, 127, 128, 129]
